@@ -77,6 +77,20 @@ Theorem C13_inflight_eventually_connected :
 Proof. exact inflight_eventually_connected_lemma. Qed.
 Print Assumptions C13_inflight_eventually_connected.
 
+(** the sort key of the in-flight view is the parameter [ht]; the theorem above needs it to be the height of the
+    carried block (as coded). For another key (here: heights of the endorsed blocks, in reverse order of the
+    containing blocks) one pass leaves a payload in flight whose context block is present *)
+Theorem C13_inflight_other_key_refuted :
+  (forall q, wk_par q < wk_blk q) /\
+  contract wk_key wk_par wk_blk pempty wk_ops /\
+  exists s s',
+    prun wk_key wk_par wk_blk pempty wk_ops = POk s /\
+    tryConnect wk_key wk_par wk_blk [10] [] s = POk s' /\
+    inflight s' 1 = true /\ mem 1 [] = false /\
+    present wk_blk [10] (conn s') (wk_par 1) = true.
+Proof. exact inflight_other_key_refuted_lemma. Qed.
+Print Assumptions C13_inflight_other_key_refuted.
+
 (** erase-while-iterating as coded now never reads an erased node; the loop before 93a5aff7 always did *)
 Theorem C13_erase_while_iterating_safe :
   (forall atvs stored, cleanup_tooold atvs stored =
